@@ -898,6 +898,12 @@ impl<'tcx> Cx<'tcx> {
                 if let ty::Adt(ad, _) = pt.kind() {
                     if ad.is_enum() {
                         o.set("nvariants", n(ad.variants().len()));
+                        // names of the variants by index (small enums only): `matches!(e.kind(), ErrorKind::Interrupted)` tests a
+                        // discriminant value, and the rules speak of variants by name
+                        if ad.variants().len() <= 96 {
+                            let names: Vec<J> = ad.variants().iter().map(|v| s(v.name.to_string())).collect();
+                            o.set("variant_names", J::Arr(names));
+                        }
                     }
                 }
             }
